@@ -184,6 +184,8 @@ class Enumerator:
                                 if v is not None and v.get('k') == 'CXXBoolLiteralExpr':
                                     forced = (v.get('v') == 'true') != lam_neg
                                 break
+                    if s.get('cv') is not None:
+                        forced = bool(s['cv'])      # instantiated `if constexpr`: only one arm exists
                     for pol, arm in ((True, s.get('then')), (False, s.get('else'))):
                         if forced is not None and pol != forced:
                             continue
@@ -260,10 +262,12 @@ class Enumerator:
         incp = self.expr(s.get('inc')) if s.get('inc') else [Path()]
         loopmark = (s, True, False)
         out = []
+        infinite = (k == 'ForStmt' and s.get('cond') is None) or \
+            (k == 'WhileStmt' and (ir.skipcasts(s.get('cond')) or {}).get('v') in ('true', '1'))
         for p0 in pre:
             for pc in condp:
                 base = p0.extend(pc)
-                if self.loop_mode == '01' and k != 'DoStmt':
+                if self.loop_mode == '01' and k != 'DoStmt' and not infinite:
                     skip = base.extend(self._cp((s, False, False)))
                     if s.get('cond') is not None and k in ('WhileStmt', 'ForStmt'):
                         skip = skip.extend(self._cp((s['cond'], False, False)))
@@ -273,7 +277,12 @@ class Enumerator:
                     if s.get('cond') is not None and k in ('WhileStmt', 'ForStmt'):
                         enter = enter.extend(self._cp((s['cond'], True, False)))
                     r = enter.extend(q)
-                    if r.end in ('break', 'continue'):
+                    if r.end == 'break':
+                        r.end = None
+                        out.append(r)
+                    elif r.end in ('continue', None) and infinite:
+                        continue      # `for(;;)`: the loop is only left through break / return / throw
+                    elif r.end == 'continue':
                         r.end = None
                         out.append(r)
                     elif r.end is None:
